@@ -5,7 +5,7 @@ import copy
 import numpy as np
 
 from . import ref, pristine
-from .core import Result, quiet, digest_of
+from .core import Result, quiet, digest_of, run_maybe_in_thread
 from .oracle import diff, fingerprint
 from .simcfg import gen_sim_cfg, simpler_sim_cfgs
 from .simpool import Sim, Installed, SimDeadlock
@@ -90,6 +90,8 @@ def gen_plan(wl, fr, idx):
     plan['positional'] = wl.random() < 0.3
     plan['f_range_list'] = wl.random() < 0.2
     plan['fs_float'] = wl.random() < 0.2
+    plan['from_thread'] = wl.random() < 0.15
+    plan['precall3d'] = entry == 'function' and wl.random() < 0.2
     plan['progress'] = wl.choice((None, None, 'tqdm'))
     plan['tqdm'] = wl.choice(('absent', 'stub'))
     plan['sim'] = gen_sim_cfg(fr, ntasks)
@@ -212,9 +214,15 @@ def execute(plan, tape):
     out, exc, bg = None, None, None
     try:
         with quiet(), Installed(sim):
-            try:
+            def _sut():
+                nonlocal out, bg
                 if plan['entry'] == 'function':
                     from bycycle.group import compute_features_3d
+                    if plan.get('precall3d'):
+                        try:
+                            compute_features_3d(-sigs[::-1, ::-1] * 0.5, fs, f_range, None, axis, True, 1, None)
+                        except Exception:
+                            pass        # nothing is demanded of the earlier call
                     if plan.get('positional'):
                         out = compute_features_3d(sigs, fs, f_range, live_options(plan), axis,
                                                   plan['return_samples'], plan['n_jobs'], plan['progress'])
@@ -238,6 +246,8 @@ def execute(plan, tape):
                     else:
                         bg.fit(sigs, fs, f_range, axis=axis, n_jobs=plan['n_jobs'], progress=plan['progress'])
                     out = bg.df_features
+            try:
+                run_maybe_in_thread(_sut, plan.get('from_thread'))
             except SimDeadlock as e:
                 res.violate('no-return', 'deadlock', 'the call blocks forever: %s' % e)
             except Exception as e:
@@ -275,6 +285,8 @@ def execute(plan, tape):
         res.stats['probe.object_entry'] += 1
     if plan.get('prefit'):
         res.stats['probe.object_refit'] += 1
+    if plan.get('from_thread'):
+        res.stats['probe.called_from_helper_thread'] += 1
     if plan.get('alias_equal'):
         res.stats['probe.option_list_with_aliased_dicts'] += 1
     if plan['sim']['faults'].get('oversubscribe'):
@@ -437,7 +449,7 @@ def shrink(plan):
     for key, val in (('n_jobs', 1), ('n_jobs', 2), ('progress', None), ('tqdm', 'absent'),
                      ('return_samples', True), ('prefit', False), ('alias_equal', False),
                      ('array_variant', None), ('positional', False), ('f_range_list', False),
-                     ('fs_float', False)):
+                     ('fs_float', False), ('from_thread', False), ('precall3d', False)):
         if key in plan and plan[key] != val:
             p = copy.deepcopy(plan)
             p[key] = val
